@@ -135,6 +135,9 @@ func (s LocalStore) Verify(ctx context.Context, n int, repair bool, w io.Writer)
 		default:
 		}
 		if err != nil { // failed to walk? => fail
+			if os.IsNotExist(err) { // a worker may just have removed this invalid chunk
+				return nil
+			}
 			return err
 		}
 		if info.IsDir() { // Skip dirs
